@@ -23,8 +23,8 @@ VERIF = os.path.dirname(os.path.dirname(os.path.abspath(__file__)))
 M = []
 
 
-def mut(name, props, file, old, new, count=1):
-    M.append(dict(name=name, props=props, file=file, old=old, new=new, count=count))
+def mut(name, props, file, old, new, count=1, more=()):
+    M.append(dict(name=name, props=props, edits=[(file, old, new, count)] + [(f, o, n, 1) for (f, o, n) in more]))
 
 
 # ---- C01 -------------------------------------------------------------------
@@ -175,6 +175,57 @@ mut("c06-search-dispatched-inline", ["C06"], "conn.go",
 mut("c06-inflight-cap-8", ["C06"], "conn.go",
     "\t\t\tc.requestsWg.Add(1)\n\t\t\tgo func() {", "\t\t\tif requestID%9 == 0 {\n\t\t\t\tc.requestsWg.Wait()\n\t\t\t}\n\t\t\tc.requestsWg.Add(1)\n\t\t\tgo func() {")
 
+# ---- C10 -------------------------------------------------------------------
+mut("c10-continue-instead-of-return", ["C10"], "conn.go",
+    "\t\t\t// stop serving requests when UnbindRequest is received\n\t\t\treturn nil", "\t\t\t// stop serving requests when UnbindRequest is received\n\t\t\tcontinue")
+mut("c10-unbind-dispatched-on-goroutine", ["C10"], "conn.go",
+    "\t\tcase r.routeOp == unbindRouteOperation:", "\t\tcase r.routeOp == unbindRouteOperation && c.router.unbindRoute == nil:")
+mut("c10-default-route-gets-unbind-and-loop-continues", ["C10"], "conn.go",
+    "\t\t\tif c.router.unbindRoute != nil {\n\t\t\t\tc.router.unbindRoute.handler()(w, r)\n\t\t\t}",
+    "\t\t\tif c.router.unbindRoute != nil {\n\t\t\t\tc.router.unbindRoute.handler()(w, r)\n\t\t\t} else if c.router.defaultRoute != nil {\n\t\t\t\tc.router.defaultRoute.handler()(w, r)\n\t\t\t\tcontinue\n\t\t\t}")
+mut("c10-unbind-handler-twice", ["C10"], "conn.go",
+    "\t\t\t\tc.router.unbindRoute.handler()(w, r)\n", "\t\t\t\tc.router.unbindRoute.handler()(w, r)\n\t\t\t\tif requestID > 3 {\n\t\t\t\t\tc.router.unbindRoute.handler()(w, r)\n\t\t\t\t}\n")
+mut("c10-unbind-answered", ["C10"], "conn.go",
+    "\t\t\t// stop serving requests when UnbindRequest is received\n", "\t\t\t_ = w.Write(r.NewResponse(WithResponseCode(ResultSuccess)))\n")
+mut("c10-close-without-waiting-on-unbind", ["C10", "C08"], "conn.go",
+    "\t\t\t// stop serving requests when UnbindRequest is received\n", "\t\t\t_ = c.netConn.Close()\n")
+
+# ---- C08 -------------------------------------------------------------------
+mut("c08-onclose-before-conn-close", ["C08"], "server.go",
+    "\t\t\t\ts.connWg.Done()\n\t\t\t\terr := conn.close()",
+    "\t\t\t\ts.connWg.Done()\n\t\t\t\tif s.onCloseHandler != nil {\n\t\t\t\t\ts.onCloseHandler(localConnID)\n\t\t\t\t}\n\t\t\t\terr := conn.close()\n\t\t\t\tif err == nil {\n\t\t\t\t\treturn\n\t\t\t\t}")
+mut("c08-requestswg-wait-removed", ["C08", "C10"], "conn.go",
+    "\tc.requestsWg.Wait()\n\tif err := c.netConn.Close(); err != nil {", "\tif err := c.netConn.Close(); err != nil {")
+mut("c08-onclose-skipped-on-error-path", ["C08"], "server.go",
+    "\t\t\tif err := conn.serveRequests(); err != nil {\n\t\t\t\ts.logger.Error(\"error handling conn\", \"op\", op, \"conn\", localConnID, \"err\", err.Error())\n\t\t\t}",
+    "\t\t\tif err := conn.serveRequests(); err != nil {\n\t\t\t\ts.logger.Error(\"error handling conn\", \"op\", op, \"conn\", localConnID, \"err\", err.Error())\n\t\t\t\tskipOnClose = true\n\t\t\t}",
+    more=[("server.go", "\t\tlocalConnID := connID\n", "\t\tlocalConnID := connID\n\t\tskipOnClose := false\n"),
+          ("server.go", "\t\t\t\tif s.onCloseHandler != nil {\n\t\t\t\t\ts.onCloseHandler(localConnID)", "\t\t\t\tif s.onCloseHandler != nil && !skipOnClose {\n\t\t\t\t\ts.onCloseHandler(localConnID)")])
+mut("c08-onclose-twice-when-clean-return", ["C08"], "server.go",
+    "\t\t\tif err := conn.serveRequests(); err != nil {\n\t\t\t\ts.logger.Error(\"error handling conn\", \"op\", op, \"conn\", localConnID, \"err\", err.Error())\n\t\t\t}",
+    "\t\t\tif err := conn.serveRequests(); err != nil {\n\t\t\t\ts.logger.Error(\"error handling conn\", \"op\", op, \"conn\", localConnID, \"err\", err.Error())\n\t\t\t} else if s.onCloseHandler != nil {\n\t\t\t\ts.onCloseHandler(localConnID)\n\t\t\t}")
+mut("c08-socket-left-open-after-error", ["C08"], "server.go",
+    "\t\t\t\terr := conn.close()\n", "\t\t\t\tvar err error\n\t\t\t\tif !leakSocket {\n\t\t\t\t\terr = conn.close()\n\t\t\t\t}\n",
+    more=[("server.go", "\t\tlocalConnID := connID\n", "\t\tlocalConnID := connID\n\t\tleakSocket := false\n"),
+          ("server.go", "\t\t\t\ts.logger.Error(\"error handling conn\", \"op\", op, \"conn\", localConnID, \"err\", err.Error())\n", "\t\t\t\ts.logger.Error(\"error handling conn\", \"op\", op, \"conn\", localConnID, \"err\", err.Error())\n\t\t\t\tleakSocket = true\n")])
+mut("c08-panic-path-skips-cleanup", ["C08"], "server.go",
+    "\t\t\t\t\tif r := recover(); r != nil {\n\t\t\t\t\t\ts.logger.Error(\"Caught panic while serving request\"", "\t\t\t\t\tif r := recover(); r != nil {\n\t\t\t\t\t\tpanicked = true\n\t\t\t\t\t\ts.logger.Error(\"Caught panic while serving request\"",
+    more=[("server.go", "\t\tlocalConnID := connID\n", "\t\tlocalConnID := connID\n\t\tpanicked := false\n"),
+          ("server.go", "\t\t\t\tif s.onCloseHandler != nil {\n\t\t\t\t\ts.onCloseHandler(localConnID)", "\t\t\t\tif s.onCloseHandler != nil && !panicked {\n\t\t\t\t\ts.onCloseHandler(localConnID)")])
+
+# ---- C09 -------------------------------------------------------------------
+mut("c09-id-is-number-of-open-connections", ["C09"], "server.go",
+    "\t\tconn, err := newConn(s.shutdownCtx, connID, c, s.logger, s.router)", "\t\tconnID = int(atomic.AddInt64(&s.open, 1))\n\t\tconn, err := newConn(s.shutdownCtx, connID, c, s.logger, s.router)",
+    more=[("server.go", "\tdisablePanicRecovery bool\n", "\tdisablePanicRecovery bool\n\topen                 int64\n"),
+          ("server.go", "\t\t\t\ts.connWg.Done()\n", "\t\t\t\tatomic.AddInt64(&s.open, -1)\n\t\t\t\ts.connWg.Done()\n"),
+          ("server.go", "\t\"sync\"\n", "\t\"sync\"\n\t\"sync/atomic\"\n")])
+mut("c09-id-captured-by-reference", ["C09", "C08"], "server.go",
+    "\t\t\t\t\ts.onCloseHandler(localConnID)", "\t\t\t\t\ts.onCloseHandler(connID)")
+mut("c09-id-wraps-at-64", ["C09"], "server.go",
+    "\t\tconn, err := newConn(s.shutdownCtx, connID, c, s.logger, s.router)", "\t\tconn, err := newConn(s.shutdownCtx, (connID-1)%64+1, c, s.logger, s.router)")
+mut("c09-request-connid-from-requestid-after-100", ["C09"], "request.go",
+    "\treturn r.conn.connID\n", "\tif r.ID > 100 {\n\t\treturn r.ID\n\t}\n\treturn r.conn.connID\n")
+
 # ---- C14 -------------------------------------------------------------------
 mut("c14-managedsait-criticality-dropped-on-decode", ["C14", "C01"], "control.go",
     "return NewControlManageDsaIT(WithCriticality(Criticality))", "return NewControlManageDsaIT()")
@@ -259,14 +310,16 @@ def run_all(args, want_props, results):
         props = [p for p in m["props"] if not want_props or p in want_props]
         if not props:
             continue
-        path = os.path.join(REPO, m["file"])
-        src = open(path).read()
-        if src.count(m["old"]) < 1:
-            print(f"{m['name']}: PATTERN NOT FOUND in {m['file']}")
+        missing = [f for (f, o, n, c) in m["edits"] if open(os.path.join(REPO, f)).read().count(o) < 1]
+        if missing:
+            print(f"{m['name']}: PATTERN NOT FOUND in {missing}")
             results.append(dict(name=m["name"], error="pattern not found"))
             continue
         try:
-            open(path, "w").write(src.replace(m["old"], m["new"], m["count"]))
+            for (f, o, n, c) in m["edits"]:
+                path = os.path.join(REPO, f)
+                src = open(path).read()
+                open(path, "w").write(src.replace(o, n, c))
             rc, out = sh(["go", "build", "./..."], cwd=REPO)
             if rc != 0:
                 print(f"{m['name']}: DOES NOT COMPILE\n{out[-800:]}")
